@@ -4,6 +4,7 @@ import (
 	"bytes"
 	"encoding/binary"
 	"errors"
+	"math"
 	"time"
 
 	ps "github.com/prometheus/client_golang/prometheus"
@@ -32,6 +33,7 @@ var errInvalidAggregate = errors.New("invalid aggregate")
 var errInvalidWeightNum = errors.New("invalid weight number")
 var errInvalidSrcKeyNum = errors.New("invalid src key number")
 var errScoreMiss = errors.New("missing score for zset")
+var errScoreNaN = errors.New("resulting score is not a number (NaN)")
 
 const (
 	zsetKeySep   byte = ':'
@@ -474,6 +476,10 @@ func (db *RockDB) ZRem(ts int64, key []byte, members ...[]byte) (int64, error) {
 	if err != nil {
 		return 0, err
 	}
+	if keyInfo.Expired {
+		// an expired collection is dead: nothing to remove
+		return 0, nil
+	}
 	table := keyInfo.Table
 
 	wb := db.wb
@@ -555,6 +561,10 @@ func (db *RockDB) ZIncrBy(ts int64, key []byte, delta float64, member []byte) (f
 	}
 
 	score = oldScore + delta
+	if math.IsNaN(score) {
+		// inf + -inf: a NaN score can not be ordered in the score index
+		return 0, errScoreNaN
+	}
 
 	if v != nil {
 		// so as to update score, we must delete the old one.
@@ -719,6 +729,10 @@ func (db *RockDB) zRemRangeBytes(ts int64, key []byte, keyInfo collVerKeyInfo, o
 	err := common.CheckKey(key)
 	if err != nil {
 		return 0, err
+	}
+	if keyInfo.Expired {
+		// an expired collection is dead: nothing to remove
+		return 0, nil
 	}
 	total, err := parseZMetaSize(keyInfo.OldHeader.UserData)
 	if err != nil {
@@ -987,6 +1001,10 @@ func (db *RockDB) ZRemRangeByRank(ts int64, key []byte, start int, stop int) (in
 	if err != nil {
 		return 0, err
 	}
+	if keyInfo.Expired {
+		// an expired collection is dead: nothing to remove
+		return 0, nil
+	}
 	num, err := parseZMetaSize(keyInfo.OldHeader.UserData)
 	if err != nil {
 		return 0, err
@@ -1143,6 +1161,10 @@ func (db *RockDB) internalZRemRangeByLex(ts int64, key []byte, min []byte, max [
 	keyInfo, err := db.getZSetForRangeWithMinMax(ts, key, min, max, false)
 	if err != nil {
 		return 0, err
+	}
+	if keyInfo.Expired {
+		// an expired collection is dead: nothing to remove
+		return 0, nil
 	}
 
 	it, err := db.NewDBRangeIterator(keyInfo.RangeStart, keyInfo.RangeEnd, rangeType, false)
